@@ -48,6 +48,8 @@ type sessCase struct {
 	Listener *lisCase `json:"listener,omitempty"`
 	// C20 only: Stop is called while a durable session's connection end is in progress, see c20srv.go
 	Closing bool `json:"closing,omitempty"`
+	// C10 / C19 / C20: a client that has stopped reading (1 take-over, 2 stop, 3 keep-alive), see c20srv.go
+	Stalled int `json:"stalled,omitempty"`
 }
 
 type sessStep struct {
@@ -61,6 +63,7 @@ type sessObs struct {
 	Steps []sessStep `json:"steps"`
 	Lis   *lisObs    `json:"lis,omitempty"`
 	Clo   *cloObs    `json:"clo,omitempty"`
+	Sta   *stallObs  `json:"sta,omitempty"`
 	Err   string     `json:"err,omitempty"`
 }
 
@@ -316,6 +319,10 @@ func (p *sessProp) Run(ci interface{}) interface{} {
 	if c.Closing {
 		co, msg := runStopDuringClose()
 		return &sessObs{Clo: co, Err: msg}
+	}
+	if c.Stalled > 0 {
+		so, msg := runStalled(c.Stalled - 1)
+		return &sessObs{Sta: so, Err: msg}
 	}
 	r := &sessRun{c: c, obs: &sessObs{}, cur: map[int]*Auto{}, curCid: map[int]int{}, all: map[int]*Auto{}, seenPubs: map[int]int{}, seenClose: map[int]bool{}, ended: map[int]time.Time{}}
 	if err := r.startBroker(); err != nil {
@@ -674,6 +681,9 @@ func (p *sessProp) Coq(ci interface{}, oi interface{}) string {
 		}
 		lis = fmt.Sprintf("(Some (SLis (mkLis %s %s %s %s %s)))", cList(ks), cBool(o.Lis.Returned), cList(cl), cBool(o.Lis.AcceptsAfter), cBool(o.Lis.LateConnack))
 	}
+	if c.Stalled > 0 && o.Sta != nil {
+		lis = fmt.Sprintf("(Some (SStalled %d%%N %s %s))", c.Stalled-1, cBool(o.Sta.OK), cBool(o.Sta.Closed))
+	}
 	if c.Closing && o.Clo != nil {
 		lis = fmt.Sprintf("(Some (SClosing (mkClosing %s %s %d%%N)))", cBool(o.Clo.Early), cBool(o.Clo.Returned), o.Clo.UnAck)
 	}
@@ -687,6 +697,9 @@ func (p *sessProp) Class(ci interface{}, oi interface{}) (string, bool) {
 	}
 	if c.Closing {
 		return "stop-during-connection-end", true
+	}
+	if c.Stalled > 0 {
+		return fmt.Sprintf("stalled-client-%d", c.Stalled), true
 	}
 	timed, recon, wills := false, 0, false
 	for _, op := range c.Ops {
